@@ -64,8 +64,9 @@ impl Function {
                 if parts.len() != out.len() {
                     bail!("incorrect output length: expected {}, found {}.", parts.len(), out.len())
                 }
+                let x0 = *try_opt!(x.first());
                 for (f, y) in parts.iter().zip(out) {
-                    *y = f.apply(x[0]);
+                    *y = f.apply(x0);
                 }
                 Ok(())
             }
